@@ -34,7 +34,9 @@ THOROUGH = QUICK + ["s_flat", "s_group", "s_long", "w_plain", "w_gzip", "w_lz4",
                     "w_long", "w_wide", "r_mmap", "r_buffer", "r_zstd", "r_lz4", "r_long", "r_cont", "b_fread", "b_buffer",
                     "b_cont", "b_par", "w_wide160", "r_wide160", "b_wide160", "w_snappy_c", "w_plain_n", "r_fread_n", "r_mmap_n",
                     "b_mmap_n", "b_buffer_n"]
-UNJUDGED_DATA = {"b_par"}          # multi-threaded: the k-th request is not a fixed one; only fault = none is judged
+# only fault = none is judged: b_par is multi-threaded (the k-th request is not a fixed one); w_wide160 would
+# cost ~800 trace events x ~700 fault points (its allocation sites are judged for content in w_long)
+UNJUDGED_DATA = {"b_par", "w_wide160"}
 
 GEN_CFG = """CONSTANT ScnIds = {%s}
 INIT Init
@@ -605,7 +607,7 @@ def shape_of(events):
 
 def validate(execs, nproc=None):
     """AllocTrace validation. Returns (verdicts, summed stats, tlc results)."""
-    verdicts, _, ress = common.validate_traces("AllocTrace", execs, nproc=min(nproc or NPROC, NPROC))
+    verdicts, _, ress = common.validate_traces("AllocTrace", execs, nproc=min(nproc or NPROC, NPROC), timeout=700)
     stats = collections.Counter()
     for r in ress:
         for k, v in r.cases[-1]["stats"].items():
